@@ -837,6 +837,68 @@ theorem pChildren_succ {f : Nat} (hL : PList f) : PChildren (f + 1) := by
       obtain ⟨a1, a2, a3, a4, a5, a6, a7, a8⟩ := SameFrame.setNode r id { n with cleanups := [], children := [] }
       exact ⟨a1, a2, a3, a4, a5, a6, a7, by simp [a8]⟩
 
+theorem liveCount_unsubscribe (r : Root) (id : Id) : (unsubscribe r id).liveCount = r.liveCount := by
+  unfold unsubscribe
+  split
+  · rfl
+  · rw [liveCount_modify,
+      liveCount_foldl_modify (fun _ n => { n with dependents := n.dependents.filter (· != id) })]
+
+theorem eraseIds_unlinked {S : List Id} {id j : Id} (hj : j ≠ id) (hid : id ∈ S) (m : Node) :
+    eraseIds S (unlinked id j m) = eraseIds S m := by
+  simp only [eraseIds, unlinked, if_neg hj, List.filter_filter]
+  congr 1
+  apply List.filter_congr; intro d _
+  by_cases hd : d = id
+  · subst hd; simp [hid]
+  · simp [hd]
+
+theorem unsubscribe_shrinks (r : Root) (id : Id) : Shrinks r (unsubscribe r id) := by
+  intro j n' hn'
+  obtain ⟨g, hg, hf⟩ := unsubscribe_get?_fields r id j
+  rw [hg, Option.map_eq_some_iff] at hn'
+  obtain ⟨n, hn, rfl⟩ := hn'
+  obtain ⟨_, _, h3, h4, h5, _⟩ := hf n
+  exact ⟨n, hn, by rw [h3]; exact List.Sublist.refl _, h4, by rw [h5]; exact fun _ h => h⟩
+
+theorem unsubscribe_cleanupsOf (r : Root) (id : Id) : cleanupsOf (unsubscribe r id) = cleanupsOf r := by
+  funext j
+  obtain ⟨g, hg, hf⟩ := unsubscribe_get?_fields r id j
+  simp only [cleanupsOf, hg]
+  cases r.get? j with
+  | none => rfl
+  | some n => simp [(hf n).2.2.2.2.1]
+
+/-- a forest of the arena after `unsubscribe` is a forest of the arena before -/
+theorem Forest.of_unsubscribe {r : Root} {id : Id} {cs S : List Id}
+    (h : Forest (unsubscribe r id) cs S) : Forest r cs S := by
+  refine Forest.transfer (fun _ => True) ?_ ?_ h (fun _ _ => trivial)
+  · intro j _ hd
+    obtain ⟨g, hg, _⟩ := unsubscribe_get?_fields r id j
+    rw [hg] at hd
+    cases hj : r.get? j with
+    | none => rfl
+    | some m => simp [hj] at hd
+  · intro j n' _ hn'
+    obtain ⟨g, hg, hf⟩ := unsubscribe_get?_fields r id j
+    rw [hg, Option.map_eq_some_iff] at hn'
+    obtain ⟨m, hm, rfl⟩ := hn'
+    exact ⟨m, hm, ((hf m).2.2.1).symm, fun _ _ => trivial⟩
+
+/-- the state in which `disposeNode` disposes the children of `id`: `id` has left the subscriber lists
+of its dependencies; everything needed for `disposeChildren` still holds -/
+theorem unsubscribe_state {r : Root} (inv : DispInv r) (id : Id) :
+    (∀ j, (unsubscribe r id).get? j = (r.get? j).map (unlinked id j)) ∧
+    DispInv (unsubscribe r id) ∧
+    (∀ cs, InertIn r cs → InertIn (unsubscribe r id) cs) ∧
+    FrameT r (unsubscribe r id) [] := by
+  obtain ⟨hget, _, hnd, hs, hsf⟩ := unsubscribe_spec inv.nd inv.sym id
+  have hsh := unsubscribe_shrinks r id
+  refine ⟨hget, ⟨hnd, hs, hsh.treeOk inv.tree⟩, ?_, FrameT.of_sameFrame hsf⟩
+  intro cs inert c hc j n' ho hn' cl hcl
+  obtain ⟨n, hn, _, _, hcls⟩ := hsh j n' hn'
+  exact inert c hc j n (ho.mono hsh) hn cl (hcls cl hcl)
+
 theorem pNode_succ {f : Nat} (hC : PChildren f) : PNode (f + 1) := by
   intro r id r' inv inert hx
   simp only [disposeNode] at hx
@@ -846,6 +908,7 @@ theorem pNode_succ {f : Nat} (hC : PChildren f) : PNode (f + 1) := by
     cases hx
     cases hn : r.get? id with
     | none =>
+      rw [unsubscribe_dead hn] at h1
       cases f with
       | zero => simp [disposeChildren] at h1
       | succ f =>
@@ -854,15 +917,18 @@ theorem pNode_succ {f : Nat} (hC : PChildren f) : PNode (f + 1) := by
         rw [removeNode_dead hn]
         exact ⟨[], [], .dead hn .nil, .refl r, .refl r, by simp, by simp, by simp⟩
     | some n =>
-      obtain ⟨S, evs, D⟩ := hC r id n r2 inv inert hn h1
-      have hid2 : r2.get? id = some (cleared (eraseIds S n)) := by
-        have : id ∉ S := fun h => Nat.lt_irrefl _ (D.gt id h)
-        rw [D.get]; simp [this]
-      have hedges := D.edges hn
-      have hrem := removeNode_removed (hedges.1 inv.nd) (hedges.2 inv.sym) id
-      refine ⟨id :: S, evs, Forest.single_live hn D.forest, ?_, ?_, ?_, ?_, ?_⟩
+      obtain ⟨hget1, inv1, hinert1, hfr1⟩ := unsubscribe_state inv id
+      have hn1 : (unsubscribe r id).get? id = some (unlinked id id n) := by rw [hget1, hn]; rfl
+      obtain ⟨S, evs, D⟩ := hC (unsubscribe r id) id (unlinked id id n) r2 inv1 (hinert1 _ inert) hn1 h1
+      have hidS : id ∉ S := fun h => Nat.lt_irrefl _ (D.gt id h)
+      have hid2 : r2.get? id = some (cleared (eraseIds S (unlinked id id n))) := by
+        rw [D.get]; simp [hidS]
+      have hedges := D.edges hn1
+      have hrem := removeNode_removed (hedges.1 inv1.nd) (hedges.2 inv1.sym) id
+      have hfor : Forest r n.children S := Forest.of_unsubscribe D.forest
+      refine ⟨id :: S, evs, Forest.single_live hn hfor, ?_, ?_, ?_, ?_, ?_⟩
       · intro j
-        rw [hrem j, D.get]
+        rw [hrem j, D.get, hget1]
         by_cases hj : j = id
         · subst hj; simp
         · by_cases hjS : j ∈ S
@@ -872,15 +938,18 @@ theorem pNode_succ {f : Nat} (hC : PChildren f) : PNode (f + 1) := by
             | none => rfl
             | some m =>
               simp only [Option.map_some, eraseIds_eraseIds]
-              rw [eraseIds_congr (S := S ++ [id]) (S' := id :: S) (by simp; intro d; exact Or.comm)]
+              rw [eraseIds_congr (S := S ++ [id]) (S' := id :: S) (by simp; intro d; exact Or.comm),
+                eraseIds_unlinked hj (by simp)]
               simp
-      · have := D.frame.trans (FrameT.of_sameFrame (removeNode_spec (hedges.1 inv.nd) (hedges.2 inv.sym) id).2.2.2.2.1)
+      · have := (hfr1.trans D.frame).trans
+          (FrameT.of_sameFrame (removeNode_spec (hedges.1 inv1.nd) (hedges.2 inv1.sym) id).2.2.2.2.1)
         simpa using this
-      · exact List.nodup_cons.2 ⟨fun h => Nat.lt_irrefl _ (D.gt id h), D.nodup⟩
+      · exact List.nodup_cons.2 ⟨hidS, D.nodup⟩
       · have := liveCount_removeNode hid2
         have := D.count
+        have := liveCount_unsubscribe r id
         simp only [List.length_cons]; omega
-      · rw [D.tags]; simp [cleanupsOf, hn]
+      · rw [D.tags, unsubscribe_cleanupsOf]; simp [cleanupsOf, hn, unlinked]
 
 theorem dispose_all (f : Nat) : PNode f ∧ PList f ∧ PChildren f := by
   induction f with
@@ -1060,9 +1129,79 @@ theorem tList_of_tNode {K W m : Nat} (hN : TNode K W m) : TList K W m := by
 theorem tNode_dead {K W m : Nat} {r : Root} {id : Id} (hn : r.get? id = none) (f : Nat)
     (hf : needFuel K W m ≤ f) : ∃ r', disposeNode f r id = .ok r' := by
   obtain ⟨f', rfl⟩ : ∃ f', f = f' + 2 := ⟨f - 2, by simp only [needFuel] at hf; omega⟩
-  exact ⟨r, by simp [disposeNode, disposeChildren, hn, removeNode]⟩
+  exact ⟨r, by simp [disposeNode, disposeChildren, unsubscribe, hn, removeNode]⟩
 
 theorem sz_step (s i c m : Nat) (h1 : s - i ≤ m + 1) (h2 : i < c) : s - c ≤ m := by omega
+
+/-- totality of `disposeChildren` on a live node, given totality of `disposeList` one level down -/
+theorem tChildren_succ {K W m : Nat} (hL : TList K W m) {r : Root} {id : Id} {n : Node}
+    (hsz : r.nodes.size - id ≤ m + 1) (inv : DispInv r) (inert : InertIn r [id]) (hread : ReadableIn r [id])
+    (hb : Bounds r K W) (hn : r.get? id = some n) (f2 : Nat) (hf : needFuel K W m + (K + 3) ≤ f2 + 2) :
+    ∃ r', disposeChildren (f2 + 1) r id = .ok r' := by
+  have hW : W + 3 ≤ needFuel K W m := by simp only [needFuel]; omega
+  -- the state in which the cleanups run
+  obtain ⟨hget1, _, _, _, _⟩ := children_state
+    (ra := { (r.setNode id { n with cleanups := [], children := [] }) with tracker := none }) inv hn rfl
+  have hv1 : ∀ x, HasValue r x →
+      HasValue { (r.setNode id { n with cleanups := [], children := [] }) with tracker := none } x := by
+    intro x ⟨nx, v, hnx, hv⟩
+    by_cases hx : x = id
+    · subst hx; rw [hn] at hnx; cases hnx
+      exact ⟨{ n with cleanups := [], children := [] }, v, by rw [hget1]; simp, hv⟩
+    · exact ⟨nx, v, by rw [hget1]; simp [hx, hnx], hv⟩
+  obtain ⟨r2, h2⟩ := runCleanups_inert_ok n.cleanups f2
+    (r := { (r.setNode id { n with cleanups := [], children := [] }) with tracker := none })
+    (fun cl hcl => ⟨inert id (by simp) id n .root hn cl hcl,
+      (hread id (by simp) id n .root hn cl hcl).mono fun x hx => hv1 x hx.1⟩) rfl
+    (by have := hb.cleanups id n hn; omega)
+  obtain ⟨e0, hr2, _⟩ := runCleanups_inert_aux f2 n.cleanups
+    (fun cl hcl => inert id (by simp) id n .root hn cl hcl) rfl h2
+  subst hr2
+  -- the state in which the children are disposed
+  generalize hra : ({ ({ ({ (r.setNode id { n with cleanups := [], children := [] }) with tracker := none } : Root) with
+      trace := ({ (r.setNode id { n with cleanups := [], children := [] }) with tracker := none } : Root).trace ++ e0 } : Root) with
+      tracker := (r.setNode id { n with cleanups := [], children := [] }).tracker } : Root) = ra
+  have hnodes : ra.nodes = (r.setNode id { n with cleanups := [], children := [] }).nodes := by
+    subst hra; rfl
+  obtain ⟨hget, hsh, inv_a, hinert, hun⟩ := children_state inv hn hnodes
+  have hsize : ra.nodes.size = r.nodes.size := by
+    rw [hnodes]; exact (SameFrame.setNode r id _).1
+  have hread_a : ReadableIn ra n.children := by
+    intro c hc j n' ho hn' cl hcl
+    obtain ⟨mj, hmj, _, _, hcls⟩ := hsh j n' hn'
+    have ho' := ho.mono hsh
+    have hca := ho'.root_alive (Root.alive_iff.2 ⟨mj, hmj⟩)
+    refine (hread id (by simp) j mj (Owned.trans (.child .root hn hc hca) ho') hmj cl (hcls cl hcl)).mono ?_
+    intro x hx
+    have hxid : x ≠ id := fun e => hx.2 id (by simp) (e ▸ .root)
+    obtain ⟨nx, v, hnx, hv⟩ := hx.1
+    refine ⟨⟨nx, v, by rw [hget]; simp [hxid, hnx], hv⟩, ?_⟩
+    intro c' hc' hox
+    have hox' := hox.mono hsh
+    have hc'a := hox'.root_alive (Root.alive_iff.2 ⟨nx, hnx⟩)
+    exact hx.2 id (by simp) (Owned.trans (.child .root hn hc' hc'a) hox')
+  have hb_a : Bounds ra K W := by
+    constructor
+    · intro j n' hn'
+      rw [hget] at hn'
+      split at hn'
+      · cases hn'; simp
+      · exact hb.children j n' hn'
+    · intro j n' hn'
+      rw [hget] at hn'
+      split at hn'
+      · cases hn'
+        have := hb.cleanups id n hn
+        have := cleanupsFuel_pos n.cleanups
+        simp only [cleanupsFuel]; omega
+      · exact hb.cleanups j n' hn'
+  obtain ⟨r3, h3⟩ := hL n.children ra
+    (fun c hc => by rw [hsize]; exact sz_step _ _ _ _ hsz (inv.tree.lt id n hn c hc))
+    inv_a (hinert inert) hread_a (inv.tree.nodup id n hn) hun hb_a f2
+    (by have := hb.children id n hn; omega)
+  subst hra
+  refine ⟨r3.modify id fun n => { n with context := [] }, ?_⟩
+  simp only [disposeChildren, hn, h2, h3]
 
 theorem tNode_succ {K W m : Nat} (hL : TList K W m) : TNode K W (m + 1) := by
   intro r id hsz inv inert hread hb f hf
@@ -1070,71 +1209,30 @@ theorem tNode_succ {K W m : Nat} (hL : TList K W m) : TNode K W (m + 1) := by
   | none => exact tNode_dead hn f hf
   | some n =>
     rw [needFuel_succ] at hf
-    have hW : W + 3 ≤ needFuel K W m := by simp only [needFuel]; omega
-    obtain ⟨f2, rfl⟩ : ∃ f2, f = f2 + 2 := ⟨f - 2, by omega⟩
-    -- the state in which the cleanups run
-    obtain ⟨hget1, _, _, _, _⟩ := children_state
-      (ra := { (r.setNode id { n with cleanups := [], children := [] }) with tracker := none }) inv hn rfl
-    have hv1 : ∀ x, HasValue r x →
-        HasValue { (r.setNode id { n with cleanups := [], children := [] }) with tracker := none } x := by
-      intro x ⟨nx, v, hnx, hv⟩
-      by_cases hx : x = id
-      · subst hx; rw [hn] at hnx; cases hnx
-        exact ⟨{ n with cleanups := [], children := [] }, v, by rw [hget1]; simp, hv⟩
-      · exact ⟨nx, v, by rw [hget1]; simp [hx, hnx], hv⟩
-    obtain ⟨r2, h2⟩ := runCleanups_inert_ok n.cleanups f2
-      (r := { (r.setNode id { n with cleanups := [], children := [] }) with tracker := none })
-      (fun cl hcl => ⟨inert id (by simp) id n .root hn cl hcl,
-        (hread id (by simp) id n .root hn cl hcl).mono fun x hx => hv1 x hx.1⟩) rfl
-      (by have := hb.cleanups id n hn; omega)
-    obtain ⟨e0, hr2, _⟩ := runCleanups_inert_aux f2 n.cleanups
-      (fun cl hcl => inert id (by simp) id n .root hn cl hcl) rfl h2
-    subst hr2
-    -- the state in which the children are disposed
-    generalize hra : ({ ({ ({ (r.setNode id { n with cleanups := [], children := [] }) with tracker := none } : Root) with
-        trace := ({ (r.setNode id { n with cleanups := [], children := [] }) with tracker := none } : Root).trace ++ e0 } : Root) with
-        tracker := (r.setNode id { n with cleanups := [], children := [] }).tracker } : Root) = ra
-    have hnodes : ra.nodes = (r.setNode id { n with cleanups := [], children := [] }).nodes := by
-      subst hra; rfl
-    obtain ⟨hget, hsh, inv_a, hinert, hun⟩ := children_state inv hn hnodes
-    have hsize : ra.nodes.size = r.nodes.size := by
-      rw [hnodes]; exact (SameFrame.setNode r id _).1
-    have hread_a : ReadableIn ra n.children := by
+    obtain ⟨f2, rfl⟩ : ∃ f2, f = f2 + 2 := ⟨f - 2, by simp only [needFuel] at hf; omega⟩
+    obtain ⟨hget1, inv1, hinert1, hfr1⟩ := unsubscribe_state inv id
+    have hsh := unsubscribe_shrinks r id
+    have hn1 : (unsubscribe r id).get? id = some (unlinked id id n) := by rw [hget1, hn]; rfl
+    have hread1 : ReadableIn (unsubscribe r id) [id] := by
       intro c hc j n' ho hn' cl hcl
       obtain ⟨mj, hmj, _, _, hcls⟩ := hsh j n' hn'
-      have ho' := ho.mono hsh
-      have hca := ho'.root_alive (Root.alive_iff.2 ⟨mj, hmj⟩)
-      refine (hread id (by simp) j mj (Owned.trans (.child .root hn hc hca) ho') hmj cl (hcls cl hcl)).mono ?_
+      refine (hread c hc j mj (ho.mono hsh) hmj cl (hcls cl hcl)).mono ?_
       intro x hx
-      have hxid : x ≠ id := fun e => hx.2 id (by simp) (e ▸ .root)
       obtain ⟨nx, v, hnx, hv⟩ := hx.1
-      refine ⟨⟨nx, v, by rw [hget]; simp [hxid, hnx], hv⟩, ?_⟩
-      intro c' hc' hox
-      have hox' := hox.mono hsh
-      have hc'a := hox'.root_alive (Root.alive_iff.2 ⟨nx, hnx⟩)
-      exact hx.2 id (by simp) (Owned.trans (.child .root hn hc' hc'a) hox')
-    have hb_a : Bounds ra K W := by
+      exact ⟨⟨unlinked id x nx, v, by rw [hget1, hnx]; rfl, hv⟩,
+        fun c' hc' ho' => hx.2 c' hc' (ho'.mono hsh)⟩
+    have hb1 : Bounds (unsubscribe r id) K W := by
       constructor
       · intro j n' hn'
-        rw [hget] at hn'
-        split at hn'
-        · cases hn'; simp
-        · exact hb.children j n' hn'
+        rw [hget1, Option.map_eq_some_iff] at hn'
+        obtain ⟨mj, hmj, rfl⟩ := hn'
+        exact hb.children j mj hmj
       · intro j n' hn'
-        rw [hget] at hn'
-        split at hn'
-        · cases hn'
-          have := hb.cleanups id n hn
-          have := cleanupsFuel_pos n.cleanups
-          simp only [cleanupsFuel]; omega
-        · exact hb.cleanups j n' hn'
-    obtain ⟨r3, h3⟩ := hL n.children ra
-      (fun c hc => by rw [hsize]; exact sz_step _ _ _ _ hsz (inv.tree.lt id n hn c hc))
-      inv_a (hinert inert) hread_a (inv.tree.nodup id n hn) hun hb_a f2
-      (by have := hb.children id n hn; omega)
-    subst hra
-    refine ⟨removeNode (r3.modify id fun n => { n with context := [] }) id, ?_⟩
-    simp only [disposeNode, disposeChildren, hn, h2, h3]
+        rw [hget1, Option.map_eq_some_iff] at hn'
+        obtain ⟨mj, hmj, rfl⟩ := hn'
+        exact hb.cleanups j mj hmj
+    obtain ⟨r3, h3⟩ := tChildren_succ hL (by rw [hfr1.size]; exact hsz) inv1 (hinert1 _ inert) hread1 hb1 hn1 f2 hf
+    exact ⟨removeNode r3 id, by simp only [disposeNode, h3]⟩
 
 theorem tNode_all (K W : Nat) : ∀ m, TNode K W m
   | 0 => by
